@@ -43,10 +43,21 @@ def generate(seed: int, tier: str = "quick") -> dict:
     program, faults = [], []
     st = RA.State()
     unit = {t: Fraction(1000) / ref.P(t, 0) for t in toks}
+    # a reserve that cannot be supplied as collateral (usageAsCollateralEnabled = False) but still carries a liquidation
+    # threshold and a bonus - several reserves of the shipped risk files are like that; the public pair
+    # supply(..., collateral=False) + change_collateral(token, True) makes it collateral all the same
+    odd = R.sub(seed, "disabled_collateral").choice(colls) if R.sub(seed, "disabled_collateral_p").random() < 0.15 else None
     for t in colls:
         amt = Decimal(A.dstr(float(unit[t]) * rp.uniform(0.5, 10), rp.choice([2, 6, 18])))
         world["assets"][t] = str(Decimal(world["assets"][t]) + amt)
-        program.append({"bar": rp.choice([-1, 0]), "phase": "on_bar", "op": "aave.supply", "m": "aave0", "a": {"token": t, "amount": str(amt), "collateral": True}})
+        b0 = rp.choice([-1, 0])
+        if t == odd:
+            mw["risk"][t]["collateral"] = False
+            program.append({"bar": b0, "phase": "on_bar", "op": "aave.supply", "m": "aave0", "a": {"token": t, "amount": str(amt), "collateral": False}})
+            program.append({"bar": b0, "phase": "on_bar", "op": "aave.change_collateral", "m": "aave0", "a": {"token": t, "collateral": True}})
+            faults.append({"kind": "collateral_in_a_reserve_not_enabled_as_collateral"})
+        else:
+            program.append({"bar": b0, "phase": "on_bar", "op": "aave.supply", "m": "aave0", "a": {"token": t, "amount": str(amt), "collateral": True}})
         st.sup[t] = [F(amt) / ref.Is(t, 0), True]
     if rest and R.sub(seed, "dust").random() < 0.2:
         # a dust collateral next to the real ones: once those are seized the health factor is tiny but positive, collateral
